@@ -264,6 +264,8 @@ class Symbols:
             base = ev(e.value)
             if e.attr == "__name__" and isinstance(base, Ref) and base.kind in ("pb", "class"):
                 return base.name
+            if isinstance(base, EnumVal) and e.attr in ("name", "value"):
+                return base.name if e.attr == "name" else base.value
             if isinstance(base, Ref):
                 if base.kind == "class" and self.is_enum_class(base):
                     mem = self.enum_members(base) or {}
@@ -492,7 +494,20 @@ class Symbols:
             except Exception:
                 return Unknown
         if isinstance(e, ast.JoinedStr):
-            return Unknown
+            # only the plain case: literal pieces and `{expr}` of a folded str / int without conversion or format spec
+            parts: list[str] = []
+            for piece in e.values:
+                if isinstance(piece, ast.Constant) and isinstance(piece.value, str):
+                    parts.append(piece.value)
+                elif isinstance(piece, ast.FormattedValue) and piece.conversion == -1 and piece.format_spec is None:
+                    pv = ev(piece.value)
+                    if isinstance(pv, str) or (isinstance(pv, int) and not isinstance(pv, bool)):
+                        parts.append(str(pv))
+                    else:
+                        return Unknown
+                else:
+                    return Unknown
+            return "".join(parts)
         return Unknown
 
     def _iter_items(self, it: ast.expr, modname: str, env: dict[str, Any]) -> Any:
